@@ -75,6 +75,50 @@ def has_null_element(doc):
     return False
 
 
+def null_positions(schema, doc):
+    """where the nulls of a document sit according to the Src schema: {"array-element", "map-value", "member", "other"}"""
+    out = set()
+    if not schema or not schema.get("defs"):
+        return {"other"} if "null" in srcgen.dumps(doc) else out
+    defs = {d["name"]: d["t"] for d in schema["defs"]}
+
+    def res(t, fuel=20):
+        while t is not None and t["k"] == "ref" and fuel:
+            t, fuel = defs.get(t["name"]), fuel - 1
+        return t
+
+    def walk(t, v):
+        t = res(t)
+        if isinstance(v, srcgen.DupObj):
+            v = dict(v.pairs)
+        if t is None or t["k"] in ("any", "union", "dunion"):
+            if v is not None and "null" in srcgen.dumps(v):
+                out.add("other")
+            return
+        if t["k"] == "struct" and isinstance(v, dict):
+            byname = {f["name"]: f for f in t["fields"]}
+            for k_, x in v.items():
+                f = byname.get(k_)
+                if x is None:
+                    out.add("member")
+                elif f is not None:
+                    walk(f["t"], x)
+        elif t["k"] == "map" and isinstance(v, dict):
+            for x in v.values():
+                if x is None:
+                    out.add("map-value")
+                else:
+                    walk(t["of"], x)
+        elif t["k"] == "array" and isinstance(v, list):
+            for x in v:
+                if x is None:
+                    out.add("array-element")
+                else:
+                    walk(t["of"], x)
+    walk(defs.get(schema["root"]), doc)
+    return out
+
+
 def through_union_of_structs(schema, path):
     """does the document path cross a field whose Src type is a discriminated union of structs?"""
     if not schema or not schema.get("defs"):
@@ -164,7 +208,8 @@ def run(ctx, verdict, replay=None, model_ok=True):
         k = 0
         for fmt in srcgen.FORMATS:
             for _ in range(per_fmt):
-                s = srcgen.SrcGen(rng, max_depth=4 if thorough else 3, fmt=fmt).schema("s%03d" % k)
+                s = srcgen.SrcGen(rng, max_depth=4 if thorough else 3, fmt=fmt,
+                                  features=srcgen.ALL_FEATURES + srcgen.EXTRA_FEATURES).schema("s%03d" % k)
                 k += 1
                 camp.add_schema(s, fmt)
                 plan.append((s["pkg"], s))
@@ -228,6 +273,7 @@ def run(ctx, verdict, replay=None, model_ok=True):
             budget["n"] -= 1
 
     by_size = lambda idxs: sorted(idxs, key=lambda i: len(json.dumps(camp.jobs[i]["docs"])))
+    schema_by0 = {sid: s for sid, s in plan}
     for i in by_size(ev["PF_MISSED"]):
         report({"part": "validate", "kind": "violation-not-reported",
                 "cause": "constraint-behind-non-struct-reference" if i in alias else "other"}, i,
@@ -255,10 +301,14 @@ def run(ctx, verdict, replay=None, model_ok=True):
         j = camp.jobs[i]
         if any(has_dup(d) for d in j["pydocs"]):
             continue        # assumption: documents without duplicate member names
-        if any(has_null_element(d) for d in j["pydocs"]):
+        nulls = set()
+        for d in j["pydocs"]:
+            nulls |= null_positions(schema_by0.get(j["sid"]), d)
+        if any(has_null_element(d) for d in j["pydocs"]) or "map-value" in nulls:
+            # (a null member is legal for optional / nullable members; only collection elements are suspect here)
             cause = "null-element-of-non-nullable-collection"
         elif "null" in " ".join(j["docs"]):
-            cause = "null-map-value-or-member"
+            cause = "null-member-or-other"
         else:
             cause = "other"
         report({"part": "strict", "kind": "accepts-document-breaking-a-condition", "cause": cause}, i,
